@@ -26,6 +26,17 @@ def step (toks : List String) : String :=
       match ubiUpsert recs a p hc with
       | none => "panic" | some true => "ok" | some false => "err"
     | _, _, _, _ => "bad-op"
+  | ["ubi-apply", hc, a, p, recs, rep] =>
+    match nat? hc, nat? a, nat? p, parseRecs recs with
+    | some hc, some a, some p, some recs =>
+      let rep? : Option (Option Nat) := if rep == "-" then some none else (nat? rep).map some
+      match rep? with
+      | none => "bad-op"
+      | some rep =>
+        match ubiApply recs rep a p hc with
+        | none => "panic" | some none => "err"
+        | some (some rs) => "ok " ++ ",".intercalate (rs.map fun r => s!"{r.1}:{r.2}")
+    | _, _, _, _ => "bad-op"
   | ["ubi-step", a, p, last, stop, now] =>
     match nat? a, nat? p, nat? last, nat? stop, nat? now with
     | some a, some p, some last, some stop, some now =>
